@@ -110,6 +110,9 @@ func commandPattern(n *Node) string {
 	if n.BGroup != "" {
 		fmt.Fprintf(&b, " -bgroup {p:%s}", n.BGroup)
 	}
+	if n.BgTail {
+		b.WriteString(" -bg")
+	}
 	if n.Suffix != "" {
 		b.WriteString(" " + n.Suffix)
 	}
